@@ -507,8 +507,25 @@ def judge(ctx, case, reply, impl):
     # annotation used by the known-finding matcher: the distinct nearest-channel tables among applied products
     case['_expand_tables'] = sorted({' '.join(c[1:]) for c in node[2] if c[0] == 'e'})
     ctx.tag(f'products-{len(finals)}')
-    mirror, mtaint = decode_arr3(node[3])
+    mirror_err = None
+    if node[3] and isinstance(node[3][0], str):
+        mirror_err = node[3][0]
+        mirror = mtaint = None
+    else:
+        mirror, mtaint = decode_arr3(node[3])
     spec, taint = decode_arr3(node[4])
+    family = len(case['_expand_tables']) >= 2     # where the coded late binding departs from the intended maps
+    if family:
+        ctx.tag('two-nearest-channel-tables')
+    # does the implementation behave as the mirror (the code as written, late-bound closure included)?
+    if impl['err'] is not None:
+        case['_impl_matches_mirror'] = mirror_err is not None
+    elif impl['corr'] is None or mirror is None:
+        case['_impl_matches_mirror'] = False
+    else:
+        case['_impl_matches_mirror'] = compare_corr(impl['corr'], mirror, mtaint, 'mirror')[0] is None
+    if not case['_impl_matches_mirror']:
+        ctx.advise(f"implementation differs from the mirror model: products {finals}, cmaps {cmaps}")
     if impl['err'] is not None:
         return f"implementation raised {impl['err']} ({impl.get('errmsg')}) for products {finals}", False
     if impl['corr'] is None:
@@ -524,10 +541,11 @@ def judge(ctx, case, reply, impl):
         ctx.tag('tainted-elements')
     if isnan_c(spec).any():
         ctx.tag('nan-factor')
-    # mirror vs spec (both double precision, same order of multiplication)
-    mv, _ = compare_corr(mirror.astype(np.complex128), spec, taint | mtaint, 'mirror')
-    if mv:
-        ctx.advise('mirror model differs from spec: ' + mv[:200])
+    if not family and mirror is not None:
+        # mirror vs spec (both double precision, same order of multiplication)
+        mv, _ = compare_corr(mirror.astype(np.complex128), spec, taint | mtaint, 'mirror')
+        if mv:
+            ctx.advise('mirror model differs from spec: ' + mv[:200])
     if not same_array(impl['corr2'], impl['corr']):
         return (f"corrections depend on chunking: chunks {case['chunks'][:2]} vs {case['chunks2'][:2]} differ"), False
     if case['sel'] is not None:
@@ -814,9 +832,11 @@ def shrink(ctx, case, what):
 def m_expand_closure(case, what):
     """known finding: `calc_correction` builds `lambda g, channels: g[expand[channels]]` inside the product loop;
     `expand` is captured by reference, so every product that needs the nearest-channel map uses the table of the
-    *last* such product.  Recognised only when two applied products need different nearest-channel tables and the
-    disagreement is in the correction values themselves."""
+    *last* such product.  Recognised only when two applied products need different nearest-channel tables, the
+    disagreement is in the correction values themselves (or the IndexError of a table too long for another
+    product) and the implementation agrees with the mirror model, which reproduces the late binding."""
     return (case.get('kind') == 'corr' and len(case.get('_expand_tables', [])) >= 2
+            and case.get('_impl_matches_mirror') is True
             and (what.startswith('correction at') or what.startswith('implementation raised IndexError')))
 
 
